@@ -16,7 +16,7 @@ def scenarios(ctx):
     quick = ctx.quick
     out = []
     Q = [{"r": 1}, {"f": 1}, {"k": 1}]
-    T = [{"r": 1, "f": 1}, {"f": 2}, {"k": 1, "f": 1}, {"r": 2}, {"p": 1}]
+    T = [{"r": 1, "f": 1}, {"k": 1, "f": 1}, {"r": 2}, {"p": 1}]
     B = Q if quick else T  # the deep vectors, on the central scenarios only (a pair of deviations costs ~10^5 group executions per scenario)
     B2 = Q if quick else Q + [{"p": 1}, {"r": 2}]
     e_all = gc.errs(membership=True)
@@ -30,9 +30,9 @@ def scenarios(ctx):
         out.append((f"assignors-{'-'.join(o)}", gc.two_members(members=members, **base), [{"r": 1}] if quick else Q))
     # broker JoinGroup version caps (v4+: MEMBER_ID_REQUIRED)
     for jm in (0, 1, 2, 5):
-        out.append((f"join-v{jm}", gc.two_members(join_max=jm, **base), B if jm in (0, 5) else B2))
+        out.append((f"join-v{jm}", gc.two_members(join_max=jm, **base), B if jm == 5 else B2))
     # a member leaving gracefully, a single member, three members
-    out.append(("leave", gc.two_members(members=[dict(topics=["t"], assignors=["range"]), dict(topics=["t"], assignors=["range"], start=0.5, stop=1.8)], **base), B))
+    out.append(("leave", gc.two_members(members=[dict(topics=["t"], assignors=["range"]), dict(topics=["t"], assignors=["range"], start=0.5, stop=1.8)], **base), B2))
     out.append(("single", gc.two_members(members=[dict(topics=["t"], assignors=["range"])], **base), B2))
     out.append(("three", gc.two_members(topics={"t": 3}, members=[dict(topics=["t"], assignors=["roundrobin"]),
                                                                  dict(topics=["t"], assignors=["roundrobin"], start=0.6),
